@@ -279,36 +279,41 @@ def r194(ctx, R):
          func=f)
     # _get_next_id >= MIN on every path
     f = prog.func(RCM + ':ResourceClass._get_next_id')
-    rets = [n for n in own_nodes(f.node) if isinstance(n, ast.Return)]
-    okr = bool(rets)
+    # per path, with the returned value propagated (a value returned
+    # directly or through a local, MIN through a local alias)
+    from psa import pathval
+    from psa import normform
+    paths = [p for p in pathval.paths_of(f) if p.end == 'return']
+    okr = bool(paths)
     why = []
-    for r in rets:
-        v = src(r.value).replace(' ', '')
-        if v in (MIN, 'self.MIN_CUSTOM_RESOURCE_CLASS_ID'):
+
+    def is_min(e):
+        return src(e).replace(' ', '') in (
+            MIN, 'self.MIN_CUSTOM_RESOURCE_CLASS_ID')
+    nz = normform.Normalizer(None, lambda e: 'MIN' if is_min(e) else None,
+                             inline=False)
+    for p in paths:
+        ret = p.stmts[-1]
+        val = p.value_at(ret, ret.value) if ret.value is not None else None
+        if val is not None and is_min(val):
             why.append('MIN')
             continue
-        # X + 1 is returned only where the branch literals (nested ifs,
-        # merged conditions, negated tests, guard clauses alike) include
-        # X >= MIN
+        v = src(val).replace(' ', '') if val is not None else 'None'
+        # X + 1 is returned only on paths that decided X >= MIN
         good = False
         if v.endswith('+1'):
             base = v[:-2]
-            from psa import normform
-            nz = normform.Normalizer(None, lambda e: 'MIN' if src(
-                e).replace(' ', '') in (
-                    MIN, 'self.MIN_CUSTOM_RESOURCE_CLASS_ID') else None,
-                inline=False)
-            want = nz.cmp(ast.parse('%s >= MIN_' % base, mode='eval').body)
             want = nz.cmp(ast.parse('%s >= %s' % (base, MIN),
                                     mode='eval').body)
-            for e, pol in C.conds(r, f.node, implicit=True):
-                c = nz.cmp(e)
+
+            def ge_min(a, pol, want=want):
+                c = nz.cmp(a)
                 if c is None:
-                    continue
+                    return False
                 if not pol:
                     c = c.negate()
-                if c == want:
-                    good = True
+                return c == want
+            good = pathval.holds(p, ge_min)
         why.append('%s %s' % (v, 'ok' if good else 'UNGUARDED'))
         okr = okr and good
     R.ob('R19.4', '_get_next_id:at-least-MIN', okr,
